@@ -6,6 +6,9 @@ import (
 	"encoding/json"
 	"flag"
 	"fmt"
+	"io"
+	"log"
+	"log/slog"
 	"math/rand"
 	"os"
 	"os/exec"
@@ -96,6 +99,18 @@ func runCase(p *Prop, env *Env, w *workerState, idx int) {
 	c := &Ctx{Env: env, Prop: p, Idx: idx, w: w}
 	c.Rng = rand.New(rand.NewSource(CaseSeed(env.Seed, p.ID, idx)))
 	w.cases++
+	if CaseSeed(env.Seed, p.ID+"/logger", idx)%6 == 0 {
+		// One case in six runs the way a process in verbose mode does: with the
+		// default logger of log/slog at the debug level (output discarded), so
+		// that statements guarded by the level are executed too.
+		prev := slog.Default()
+		slog.SetDefault(slog.New(slog.NewTextHandler(io.Discard, &slog.HandlerOptions{Level: slog.LevelDebug})))
+		w.events["cases_under_a_debug_level_logger"]++
+		defer func() {
+			slog.SetDefault(prev)
+			log.SetOutput(os.Stderr)
+		}()
+	}
 	c.Guard("case", nil, map[string]any{"index": idx}, func() { p.Run(c, idx) })
 }
 
